@@ -99,6 +99,32 @@ def decode_body(request):
         return {"kind": "undecodable", "ctype": ct, "error": repr(e)}
 
 
+def conforms(v, hint):
+    origin = typing.get_origin(hint)
+    if hint is typing.Any:
+        return True
+    if hint is None or hint is type(None):
+        return v is None
+    if origin is typing.Union:
+        return any(conforms(v, a) for a in typing.get_args(hint))
+    if origin is typing.Literal:
+        return any(v == a and type(v) is type(a) for a in typing.get_args(hint))
+    if origin in (list, typing.List):
+        args = typing.get_args(hint)
+        return isinstance(v, list) and (not args or all(conforms(x, args[0]) for x in v))
+    if origin in (dict, typing.Dict):
+        return isinstance(v, dict)
+    if isinstance(hint, type):
+        if hint is float:
+            return isinstance(v, (int, float)) and not isinstance(v, bool)
+        if hint is int:
+            return isinstance(v, int) and not isinstance(v, bool)
+        return isinstance(v, hint)
+    if origin is not None and isinstance(origin, type):
+        return isinstance(v, origin)
+    return True
+
+
 def classify(v):
     if v is None:
         return "None"
@@ -165,6 +191,14 @@ for call in job["calls"]:
             kwargs["body"] = body_for(call["body"], hints.get("body"))
         try:
             res = asyncio.run(fn(**kwargs)) if is_async else fn(**kwargs)
+            rh = hints.get("return")
+            if call["variant"].endswith("_detailed"):
+                inner = typing.get_args(rh)[0] if rh is not None and typing.get_args(rh) else typing.Any
+                obs["truthful_return"] = conforms(res.parsed, typing.Optional[inner]) if inner is not typing.Any else True
+                obs["return_hint"] = str(rh)
+            elif rh is not None:
+                obs["truthful_return"] = conforms(res, rh)
+                obs["return_hint"] = str(rh)
             if call["variant"].endswith("_detailed"):
                 obs["return"] = {"type": type(res).__name__, "status": int(res.status_code), "content_b64": base64.b64encode(res.content).decode(),
                                  "x_served": res.headers.get("x-served"), "parsed": classify(res.parsed)}
